@@ -33,6 +33,7 @@ Unary ==
   /\ ToNat(SExt(bx, w, w + 7)) = (IF S(x) < 0 THEN x + (2^(w+7) - M) ELSE x)
   /\ ToNat(ZExt(bx, w + 9)) = x
   /\ SmallVal(bx) = x
+  /\ \A m \in {1, 2, 7, 8, 9, 32, 33, 64} : ModSmall(bx, m) = x % m
 Shifts(s) ==
   /\ ToNat(ShlN(bx, s, w)) = (IF s >= w THEN 0 ELSE (x * 2^s) % M)
   /\ ToNat(ShrN(bx, s, w)) = (IF s >= w THEN 0 ELSE x \div 2^s)
